@@ -783,6 +783,32 @@ func (env *Env) elabCall(x *ECall) Val {
 				return env.convertTo(env.elab(x.Args[0]), t)
 			}
 		}
+		// x.M() on an interface value whose dynamic type is known at this program point (the value was made from
+		// a *T right here) and whose method M of that type is a constant function (`return <literal>`): the literal
+		if len(x.Args) == 0 && constMethodHook != nil {
+			recv := env.elab(sel.X)
+			if recv.Dyn != nil {
+				if k, t, ok := constMethodHook(recv.Dyn, sel.Name); ok {
+					return Val{T: t, S: c.lit(t, k)}
+				}
+				fail("%s: method %s of %v is not a constant function", exprString(x), sel.Name, recv.Dyn)
+			}
+			if recv.S == "iface_nil" {
+				// a method of the nil interface value: never evaluated by a well-guarded clause; any value
+				if it, ok := recv.T.Underlying().(*types.Interface); ok {
+					for i := 0; i < it.NumMethods(); i++ {
+						if m := it.Method(i); m.Name() == sel.Name {
+							if rs := m.Type().(*types.Signature).Results(); rs.Len() == 1 {
+								n := c.fresh("nilcall")
+								c.declare(n, c.sortOf(rs.At(0).Type()))
+								return Val{T: rs.At(0).Type(), S: n}
+							}
+						}
+					}
+				}
+			}
+			fail("%s: the dynamic type of %s is not known here", exprString(x), exprString(sel.X))
+		}
 		fail("unsupported call %s", exprString(x))
 	}
 	id, ok := x.Fun.(*EIdent)
@@ -976,6 +1002,25 @@ func (env *Env) elabCall(x *ECall) Val {
 			return ""
 		}
 		return Val{T: types.Typ[types.Bool], S: fmt.Sprintf("(= %s %s)", root(x.Args[0]), root(x.Args[1]))}
+	case name == "unbox":
+		// unbox(x, T): the *T held by the interface value x (meaningful when x's dynamic type is *T)
+		if len(x.Args) != 2 {
+			fail("unbox(x, T) needs an interface value and a type name")
+		}
+		v := env.elab(x.Args[0])
+		if _, ok := v.T.Underlying().(*types.Interface); !ok {
+			fail("unbox() needs an interface value")
+		}
+		tn, ok := x.Args[1].(*EIdent)
+		if !ok {
+			fail("unbox(x, T): T must be a type name")
+		}
+		t := env.resolveType(tn.Name)
+		if t == nil {
+			fail("unbox(x, T): unknown type %s", tn.Name)
+		}
+		c.declareFun("unbox_Loc", []string{"Iface"}, "Loc")
+		return Val{T: types.NewPointer(t), S: fmt.Sprintf("(unbox_Loc %s)", v.S)}
 	case name == "hasprefix":
 		// hasprefix(s, p): strings.HasPrefix(s, p), the same uninterpreted relation the encoder uses
 		a, b := env.elab(x.Args[0]), env.elab(x.Args[1])
